@@ -23,6 +23,7 @@ import json
 import os
 import shutil
 import threading
+import time
 
 EXIT_CODE = 77
 
@@ -115,7 +116,7 @@ class _WFile:
 
 
 class FsFault:
-    def __init__(self, root, log_path=None, plan=None, hold=None):
+    def __init__(self, root, log_path=None, plan=None, hold=None, delays=None):
         """root: watched directory; plan: {stable_id_tuple: action}; log_path: JSON-lines event log."""
         self.root = os.path.realpath(root)
         self.plan = dict(plan or {})
@@ -130,6 +131,9 @@ class FsFault:
         self.tls = threading.local()
         # hold: optional {stable_id: threading.Event} -- the point waits for the event before running
         self.hold = dict(hold or {})
+        # delays: optional {stable_id: seconds} -- the point sleeps before it runs (to force an interleaving,
+        # e.g. a slow pooled chunk write)
+        self.delays = dict(delays or {})
 
     # -- path helpers -------------------------------------------------------------------------
     def _rel(self, path):
@@ -163,8 +167,11 @@ class FsFault:
             self.counts[key] = occ + 1
             sid = (d, kind, base, occ)
             hold_ev = self.hold.get(sid)
+            delay = self.delays.get(sid)
         if hold_ev is not None:
             hold_ev.wait(30)
+        if delay:
+            time.sleep(delay)
         with self.lock:
             k = self.seq
             self.seq += 1
